@@ -17,7 +17,7 @@ use vpmodel::spec::ChainSpec;
 pub const DEF: PropDef = PropDef {
     id: "C02",
     level: "exploration",
-    rule: "part 1 (bounded-exhaustive): for every tip height T<=Tmax, every accepted option combination (none; -s in 0..=T; -e in 1..=T+3; both with s<e) x 5 callbacks x 2 coins on a fixed generated chain, plus the csvdump runs again with --verify on a chain that starts at the real genesis block; part 3 (progress-line-due): 10 runs (5 callbacks, with and without a range) that are stopped for 10.5 s right after the first block is announced, so that the driver's 10-second progress line falls due inside the block loop; part 4 (thousand-blk-files): a 1300-block chain stored one block per blk file, processed whole and in ranges under RLIMIT_NOFILE=256 (real chains have thousands of blk files against a default limit of 1024); part 2 (random): chains up to 60 blocks in generated physical layouts (1..60 blk files, any order), base heights up to 10^7 (segment chains), random (s,e). Oracle: callback output == reference model applied to exactly heights s..=min(e,T); file names carry s and min(e,T); 'Processed blocks up to height' == min(e,T); for csvdump/opreturn the range output equals the row slice of the whole-chain output. Non-trivial = a range option is given and at least one block of the chain is excluded; distinct by (T, base, s, e, callback, coin).",
+    rule: "part 1 (bounded-exhaustive): for every tip height T<=Tmax, every accepted option combination (none; -s in 0..=T; -e in 1..=T+3; both with s<e) x 5 callbacks x 2 coins on a fixed generated chain, plus the csvdump runs again with --verify on a chain that starts at the real genesis block; part 3 (progress-line-due): 10 runs (5 callbacks, with and without a range) that are stopped for 10.5 s right after the first block is announced, so that the driver's 10-second progress line falls due inside the block loop; part 4 (thousand-blk-files): a 1300-block chain stored one block per blk file, processed whole and in ranges under RLIMIT_NOFILE=256 (real chains have thousands of blk files against a default limit of 1024); part 5 (chain-longer-than-2^16): a 66 200-block chain, whole for every callback and in ranges that start, end or lie across heights 65535 / 65536; part 2 (random): chains up to 60 blocks in generated physical layouts (1..60 blk files, any order), base heights up to 10^7 and at the 5-byte VarInt boundary, 2^24, 2^31 (segment chains), random (s,e). Oracle: callback output == reference model applied to exactly heights s..=min(e,T); file names carry s and min(e,T); 'Processed blocks up to height' == min(e,T); for csvdump/opreturn the range output equals the row slice of the whole-chain output. Non-trivial = a range option is given and at least one block of the chain is excluded; distinct by (T, base, s, e, callback, coin).",
     assumptions: &["options the CLI accepts: s<e when both are given; s <= T (a start beyond the tip is outside the statement)", "for chains whose first indexed height is > 0 a --start at or above that height is given"],
     run,
     replay,
@@ -243,11 +243,25 @@ fn run(eng: &Engine, a: &Args) {
         Case { chain, start: None, end: Some(1000), cb: Callback::SimpleStats, layout: Some(layout), verify: false, pause: false, nofile: Some(256) },
     ];
     eng.enumerate("thousand-blk-files", many, check);
+    // a chain of more than 2^16 blocks: heights, block / row counters and per-height bookkeeping beyond 16 bits
+    // (real chains have hundreds of thousands of blocks); whole chain for every callback, and ranges that start,
+    // end or lie across heights 65535 / 65536
+    let nb = 66_200usize;
+    let scripts: Vec<Vec<u8>> = (0..nb).map(|i| if i % 5 == 2 { vec![0x6a, 0x04, b'a' + (i % 26) as u8, b'0' + (i / 26 % 10) as u8, b'A' + (i / 260 % 26) as u8, b'#'] } else { let mut s = vec![0x76, 0xa9, 0x14]; s.extend([(i & 0xff) as u8, (i >> 8) as u8, (i >> 16) as u8].iter().cycle().take(20)); s.extend([0x88, 0xac]); s }).collect();
+    let chain = vpmodel::spec::chain_from_scripts(Coin::Bitcoin, &scripts, &[1000, 2500, 7], 1, 1, 0, 1_300_000_000);
+    let mut long = Vec::new();
+    for cb in ALL_CALLBACKS {
+        long.push(Case { chain: chain.clone(), start: None, end: None, cb, layout: None, verify: false, pause: false, nofile: None });
+    }
+    for (s, e, cb) in [(Some(65_530u64), Some(65_541u64), Callback::CsvDump), (Some(65_536), None, Callback::UnspentCsvDump), (None, Some(65_536), Callback::Balances), (Some(65_535), Some(65_536), Callback::OpReturn), (Some(1), Some(65_535), Callback::SimpleStats)] {
+        long.push(Case { chain: chain.clone(), start: s, end: e, cb, layout: None, verify: false, pause: false, nofile: None });
+    }
+    eng.enumerate("chain-longer-than-2^16", long, check);
 }
 
 fn replay(part: &str, case: serde_json::Value) -> Option<Verdict> {
     match part {
-        "exhaustive-small-T" | "random-ranges" | "progress-line-due" | "thousand-blk-files" => Some(check(&serde_json::from_value(case).ok()?)),
+        "exhaustive-small-T" | "random-ranges" | "progress-line-due" | "thousand-blk-files" | "chain-longer-than-2^16" => Some(check(&serde_json::from_value(case).ok()?)),
         _ => None,
     }
 }
